@@ -36,7 +36,7 @@ def stress_scenario(rng, tag, idx, quick):
         steps += session_steps(1, 3, [(acct("alice", 2, [list(b"task_id=1")]), 0, [])], fl=1)
         steps += session_steps(1, 0, ascii_login("alice", pw), fl=1)
         clients.append(steps)
-    return {"id": "stress%d" % idx, "cfgs": [A, B, A, C], "clients": clients, "addr": "10.7.1.1", "reloads": 80 if quick else 400, "rounds": 8 if quick else 24}
+    return {"id": "stress%d" % idx, "cfgs": [A, B, A, C], "clients": clients, "addr": "10.7.1.1", "reloads": 80 if quick else 400, "rounds": 8 if quick else 24, "churn": 150 if quick else 1500}
 
 
 def collect(ctx, prop):
